@@ -56,8 +56,10 @@ def run(tier, seed):
     rep.extra['gen_changed'] = changed
   except Exception as e:  # pylint: disable=broad-except
     broke = 'translator harness/translate/sqlshape.py refused sql_datastore.py: %r' % (e,)
+  from harness import svcrun as _svcrun
+  hb_ = _svcrun.regenerate_handler_sources()
   C.standard_proof_step(rep, 'C05')
-  broke = ((broke or '') + ' ' + (rep.proof_broken or '')).strip() or None
+  broke = ((broke or '') + ' ' + (rep.proof_broken or '') + ' ' + (hb_ or '')).strip() or None
   concrete = False
   known = {f['id']: f for f in C.load_known() if f['property'] == 'C05'}
   r = C.rng(seed, 'c05')
@@ -119,6 +121,29 @@ def run(tier, seed):
       events = json.loads(so.strip().splitlines()[-1])['events']
       rep.count('one_worker_two_studies_' + rpc[0])
       for k in sorted({1, events, events + 1}):
+        jobs.append({'prefix': seq, 'rpc': rpc, 'k': k, 'before': before, 'after': after, 'events': events, 'outcome': out})
+
+    # ---- every request shape of the trial-level calls (complete with / without a final measurement, infeasible with / without
+    # measurements, measure, stop, delete, add requested / completed trial), crashed at EVERY event: all-or-nothing per call
+    shapes_ = [('CompleteTrial', 1, 1, 1, [(1, 2)], False), ('CompleteTrial', 1, 1, 1, [(1, 2)], True), ('CompleteTrial', 1, 1, 1, [], True),
+               ('CompleteTrial', 1, 1, 2, [], False), ('AddTrialMeasurement', 1, 1, 1, [(1, 3)]), ('StopTrial', 1, 1, 1), ('DeleteTrial', 1, 1, 2),
+               ('CreateTrial', 1, 1, 70, 'REQUESTED', [], []), ('CreateTrial', 1, 1, 71, 'SUCCEEDED', [], [(1, 1)])]
+    if tier == 'quick':
+      shapes_ = shapes_[:3] + r.sample(shapes_[3:], 2)
+    for rpc in shapes_:
+      seq = [('CreateStudy', 1, 1, False, 'SS_ACTIVE', [(1, True)]), ('SuggestTrials', 1, 1, 1, 2, ('deliver', [11, 12], [], [])),
+             ('AddTrialMeasurement', 1, 1, 2, [(1, 5)])]
+      steps, before, serv = svc.run_sequence('sqlmem', seq, recycle=True)
+      out = svc.apply_rpc(serv, serv.default_pythia_service._policy_factory.h, rpc)
+      after = svc.snapshot(serv)
+      d0 = tempfile.mkdtemp(dir=scratch)
+      rc, so, se = child(d0, {'prefix': seq, 'rpc': rpc, 'k': 0})
+      shutil.rmtree(d0, ignore_errors=True)
+      if rc != 0:
+        raise RuntimeError('crash child failed: %s' % se)
+      events = json.loads(so.strip().splitlines()[-1])['events']
+      rep.count('request_shape_' + rpc[0])
+      for k in range(1, events + 2):
         jobs.append({'prefix': seq, 'rpc': rpc, 'k': k, 'before': before, 'after': after, 'events': events, 'outcome': out})
 
     # ---- large transactions: one call that rewrites many pages (a study with many fat trials deleted / annotated in one
